@@ -369,6 +369,10 @@ def run(ctx: Ctx):
              "every non-fractional stored loading representation (the accessor interpretation of C03, restricted to the property's domain)")
     from .C03 import accessors_for
     accessors_for(ctx, "C15", "R-acc", ["point_read", "point_at"], opts={"stored_nonfractional": True}, floor=500)
+    # intensive results under a rescaling of all loadings: the Cheng-Yang coverage entering the pore-width objective is the loading relative
+    # to the largest loading (objective of the two solvers interpreted on symbolic points, shared with C17 H-solve)
+    from .C17 import r_solver
+    r_solver(ctx, model, prop="C15", rule="R-scale")
     from ..sites import no_absolute_tolerance
     no_absolute_tolerance(ctx, model, "C15", "R-scale", ("pygaps.characterisation.",), "unit-bearing isotherm data")
     ctx.rule("R-scale: no comparison with an absolute tolerance on isotherm data inside pygaps.characterisation")
